@@ -5,7 +5,7 @@ from .. import scncheck
 from ..gen.progs import push, op
 from ..ref import ed25519 as E
 
-INV = ['AcceptIffIntended', 'OtherKeyRejected', 'SurrogateBound']
+INV = ['AcceptIffIntended', 'OtherKeyRejected', 'SurrogateBound', 'MsAcceptIffIntended', 'MsFewerHoldersRejected']
 FLAG = {'f0': '00', 'perm': '01', 'nonperm': '02'}
 ALLOWED = '01'
 
@@ -86,8 +86,28 @@ def one(F, T, k, seeds, sf, scr):
     return 'true' if F.run_auth_scripts([wit, bytes(lock.bytes)], cache) else 'false'
 
 
+MS_SEEDS = {1: b'\x51' * 32, 2: b'\x52' * 32, 3: b'\x53' * 32, 4: b'\x54' * 32, 5: b'\x55' * 32, 9: b'\x59' * 32}
+
+
+def one_ms(F, T, k, seeds, sf):
+    """m-of-n multisig lock against the concatenation of single-signature witnesses (bottom first)."""
+    pks = [E.public_key(seeds[i]) for i in range(1, k['n'] + 1)]
+    lock = T.make_multisig_lock(pks, k['m'], ALLOWED)
+    wit = b''.join(bytes(T.make_single_sig_witness(seeds[sg['who']], dict(sf), FLAG[sg['fl']]).bytes) for sg in k['sigs'])
+    cache = dict(sf)
+    if k['fields'] == 'covered':
+        cache['sigfield2'] = cache['sigfield2'] + b'!'
+    elif k['fields'] == 'excluded':
+        cache['sigfield1'] = cache['sigfield1'] + b'!'
+    scripts = [wit, bytes(lock.bytes)] if wit else [bytes(lock.bytes)]
+    return 'true' if F.run_auth_scripts(scripts, cache) else 'false'
+
+
 def run_mc(k):
     F, T = _impl()
+    if k['lock'] == 'ms':
+        sf = {'sigfield1': b'nonce-7', 'sigfield2': b'pay 10 to bob', 'sigfield3': b''}
+        return one_ms(F, T, k, MS_SEEDS, sf), None
     sf = {'sigfield1': b'nonce-7', 'sigfield2': b'pay 10 to bob', 'sigfield3': b''}
     return one(F, T, k, (b'\x41' * 32, b'\x42' * 32), sf, scripts_for()), None
 
@@ -108,6 +128,29 @@ def record_random(args):
         body = r.choice([b'', op('TRUE') + op('VERIFY'), push(b'ab') + op('SIZE') + op('POP0')])
         mk = lambda m, v: push(bytes([m])) + op('POP0') + body + (op('TRUE') if v else op('FALSE'))
         scr = {'1': mk(1, True), '2': mk(2, True), '3': mk(3, False)}
+        if r.random() < 0.3:
+            n = r.randint(1, 5)
+            m = r.randint(1, n)
+            signers = list(range(1, n + 1))
+            r.shuffle(signers)
+            mode = r.random()
+            if mode < 0.4:          # an honest quorum, sometimes over different flag variants
+                sigs = [{'who': w, 'fl': r.choice(['f0', 'perm'])} for w in signers[:m]]
+            elif mode < 0.7:        # one holder signing more than once with different encodings, outsiders, repeats
+                sigs = [{'who': r.choice(signers[:2] + [9]), 'fl': r.choice(['f0', 'perm'])} for _ in range(m)]
+            else:
+                sigs = [{'who': r.choice(signers + [9]), 'fl': r.choice(['f0', 'perm', 'perm', 'nonperm'])}
+                        for _ in range(r.choice([m, m, m - 1, m + 1]))]
+            k = {'lock': 'ms', 'm': m, 'n': n, 'sigs': sigs, 'fields': r.choice(['same', 'same', 'excluded', 'covered'])}
+            seeds = {i: bytes([r.randrange(256)]) + r.randbytes(31) for i in (1, 2, 3, 4, 5, 9)}
+            try:
+                got = one_ms(F, T, k, seeds, sf)
+            except BaseException as e:
+                if isinstance(e, (KeyboardInterrupt, SystemExit)):
+                    raise
+                got = f'raised-{type(e).__name__}'
+            out.append({**k, 'got': got})
+            continue
         k = {'lock': r.choice(['ss', 'ss2', 'ms11', 'sh', 'gr', 'ga']), 'wit': None, 'wkey': r.choice([1, 1, 2]),
              'fields': r.choice(['same', 'same', 'covered', 'excluded']), 'fl': r.choice(['f0', 'f0', 'perm', 'nonperm']),
              'script': r.choice(['1', '1', '2', '3']), 'sursig': r.choice([1, 1, 2])}
@@ -130,18 +173,23 @@ def main(tier: str, seed: int) -> int:
                 'builders (all cross-pairings) x {lock key, other key} x {fields same, covered field changed, excluded field '
                 'changed} x {no flag, permitted, non-permitted flag} x {committed / surrogate script, another script, a false '
                 'script} x {surrogate signed by lock key, by another key} = 4,536 cases; laws AcceptIffIntended, OtherKeyRejected, '
-                'SurrogateBound; each case is built with the real builders (surrogate / graftap witnesses re-assembled from the '
+                'SurrogateBound; family ms: make_multisig_lock m-of-n for (m,n) in {1/1, 1/2, 2/2, 2/3, 3/3} against every sequence of m-1..m+1 '
+                'single-signature witnesses by {listed keys, outsider} x {no flag, permitted, non-permitted}, x sigfield perturbation; the lock as the '
+                'greedy matcher vs the declarative quorum (MsAcceptIffIntended, MsFewerHoldersRejected: one holder signing twice with '
+                'different encodings is no quorum); each case is built with the real builders (surrogate / graftap witnesses re-assembled from the '
                 'builder\'s signature so that script and signer can be varied; the honest assembly must equal the builder\'s bytes) '
                 'and run through run_auth_scripts. traces: random seeds (first byte sweeping all values), sigfield subsets, script '
                 'bodies and perturbations, judged by TLC.')
     rep.assumptions = ['ideal signatures / hashes', 'sigfield1 is the field excluded by the permitted flag x01; sigfield2 is always covered']
     quick = tier == 'quick'
-    scncheck.mc(rep, 'Locks', 'mc', INV, run_mc, workers=4)
+    consts = {'MaxWit': 3 if quick else 4}
+    scncheck.mc(rep, 'Locks', 'mc', INV, run_mc, workers=4, consts=consts)
+    scncheck.mc(rep, 'Locks', 'ms', INV, run_mc, workers=8, consts=consts)
     import multiprocessing as mp
-    n = 1500 if quick else 40000
+    n = 10000 if quick else 60000
     with mp.get_context('fork').Pool(14) as pool:
         cases = [c for ch in pool.map(record_random, [(seed * 53 + i, n // 28) for i in range(28)]) for c in ch]
-    scncheck.judge(rep, 'Locks', [], cases, 'random lock scenarios')
+    scncheck.judge(rep, 'Locks', [], cases, 'random lock scenarios', consts=consts)
     return rep.finish()
 
 
